@@ -253,6 +253,18 @@ def build_pool(rng, nprng, focus):
     pool["map"].append({syms[0]: 0.5})
     pool["map"].append({})
     pool["map"].append({syms[0]: syms[1], syms[1]: 1.0})
+    # maps of other dict kinds: some ANSWER for symbols they do not list (and a defaultdict starts listing whatever it
+    # is asked for with []): what the map lists is part of the caller's state like everything else
+    import collections
+
+    class _ZeroForMissing(dict):
+        def __missing__(self, key):
+            return 0.0
+
+    pool["map"].append(collections.defaultdict(float, {syms[0]: 0.5}))
+    pool["map"].append(collections.defaultdict(lambda: 1.0))
+    pool["map"].append(_ZeroForMissing({syms[1]: -0.75}))
+    pool["map"].append(collections.OrderedDict([(syms[2], 0.25), (syms[0], 2)]))
     from orquestra.quantum.operators import convert_op_to_dict
 
     pool["opdict"].append(convert_op_to_dict(_rand_sum(rng)))
